@@ -1129,3 +1129,129 @@ def check_self_alias_iteration(ctx, rule="ALIAS"):
                             n += 1
                             ctx.hold(rule, f"{fi.qualname}:iterates-argument", (fi, lp), "grows self while iterating over a snapshot of the argument")
     return n
+
+
+def check_instance_containers(ctx, class_quals, rule="OWN"):
+    """Every instance owns its containers: an attribute that the class' methods grow in place (`self.X.append(…)`) is bound to
+    a container of its own — in `__init__` and in `clear()` — never to a class-level default (shared by all instances) nor to
+    the very object another attribute is bound to (`self.a = self.b = []`)."""
+    m = ctx.model
+    n = 0
+    MUT = {"append", "extend", "insert", "add", "update", "setdefault"}
+    for cq in class_quals:
+        ci = m.cls(cq.split(".")[-1])
+        if ci is None:
+            continue
+        grown = {}
+        for name, lst in ci.methods.items():
+            for fi in lst:
+                for c in ast.walk(fi.node):
+                    if isinstance(c, ast.Call) and isinstance(c.func, ast.Attribute) and c.func.attr in MUT and isinstance(c.func.value, ast.Attribute) \
+                            and isinstance(c.func.value.value, ast.Name) and c.func.value.value.id == "self":
+                        grown.setdefault(c.func.value.attr, fi)
+        for attr in sorted(grown):
+            site = f"{ci.qualname}.{attr}:own-container"
+            bad = None
+            # (1) no mutable class-level default
+            for st in ci.node.body:
+                tgt = val = None
+                if isinstance(st, ast.Assign) and len(st.targets) == 1 and isinstance(st.targets[0], ast.Name):
+                    tgt, val = st.targets[0].id, st.value
+                elif isinstance(st, ast.AnnAssign) and isinstance(st.target, ast.Name) and st.value is not None:
+                    tgt, val = st.target.id, st.value
+                if tgt == attr and (isinstance(val, (ast.List, ast.Dict, ast.Set, ast.ListComp, ast.DictComp, ast.SetComp)) or
+                                    (isinstance(val, ast.Call) and U(val.func) in ("list", "dict", "set", "collections.deque", "deque", "defaultdict"))):
+                    bad = (ci.node, st, f"`{U(st)[:60]}` is a class-level container: every instance that does not rebind `self.{attr}` grows the same object "
+                           "(two trackers or collections in one process mix their records)")
+            # (2) bound in __init__ on every path, (3) never to the object of another grown attribute
+            binders = [fi for nm in ("__init__", "clear") for fi in ci.methods.get(nm, [])]
+            init = m.method(ci, "__init__")
+            if init is not None and init not in binders:
+                binders.append(init)
+            bound_in_init = False
+            for fi in binders:
+                fv = view(m, fi)
+                stores = [s_ for s_ in fv.statements() if isinstance(s_, (ast.Assign, ast.AnnAssign)) and s_.value is not None
+                          and any(U(t_) == f"self.{attr}" for t_ in (s_.targets if isinstance(s_, ast.Assign) else [s_.target]))]
+                for s_ in stores:
+                    v = s_.value
+                    if isinstance(v, ast.Attribute) and isinstance(v.value, ast.Name) and v.value.id == "self" and v.attr in grown and v.attr != attr:
+                        bad = bad or (fi, s_, f"`{U(s_)[:60]}` in {fi.name} binds self.{attr} to the very object of self.{v.attr} (one container under two names): "
+                                      f"what is appended to one appears in the other, so members and their companions are no longer paired")
+                if fi.name == "__init__" and stores:
+                    # the binding dominates the normal exit (every constructed instance has its own container)
+                    if any(fv.dominates(s_, fv.cfg.exit) or fv.post_dominates(s_, fv.cfg.entry) for s_ in stores) or len(stores) >= 1 and _all_paths_bind(fv, stores):
+                        bound_in_init = True
+            if bad is None and not bound_in_init and init is not None and init.cls is ci:
+                bad = (init, init.node, f"`self.{attr}` is grown in place by {grown[attr].name}() but the constructor does not bind it to a new container on every path")
+            n += 1
+            if bad is not None:
+                ctx.violate(rule, site, (bad[0], bad[1]) if not isinstance(bad[0], ast.AST) else bad[1], bad[2])
+            else:
+                ctx.hold(rule, site, grown[attr], f"self.{attr} is an own container of every instance")
+    return n
+
+
+def _all_paths_bind(fv, stores):
+    """every normal path from entry to exit passes one of the stores"""
+    blocked = {id(fv.node_of(s_)) for s_ in stores if fv.node_of(s_) is not None}
+    seen, work = set(), [fv.cfg.entry]
+    while work:
+        nd = work.pop()
+        if id(nd) in seen or id(nd) in blocked:
+            continue
+        seen.add(id(nd))
+        if nd is fv.cfg.exit:
+            return False
+        work.extend(x for x, lab in nd.succ if lab != "exc")
+    return True
+
+
+def check_weighted_mean(ctx, rule="STAT"):
+    """Emulsion.interface_width is the mean of the members' widths weighted by their surface area; the weights can all vanish
+    (no diffuse member, or only members of radius 0: copies of dissolved droplets), so the division is guarded by the *total
+    weight* being zero — a test on the number of collected members lets `0/0` or `ZeroDivisionError` through."""
+    from ..astutil import canon_guards
+
+    m = ctx.model
+    fi = m.func(f"{EM}.Emulsion.interface_width")
+    fv = view(m, fi)
+    si = stmt_index(fv)
+    site = fi.qualname + ":weighted-mean"
+    n = 0
+    for rn in fv.return_nodes():
+        r = rn.stmt
+        if r.value is None or (isinstance(r.value, ast.Constant) and r.value.value is None):
+            continue
+        v = r.value
+        while isinstance(v, ast.Call) and U(v.func) in ("float", "np.float64") and len(v.args) == 1:
+            v = v.args[0]
+        den = None
+        how = ""
+        if isinstance(v, ast.BinOp) and isinstance(v.op, ast.Div):
+            den = U(v.right)
+            how = "division"
+        elif isinstance(v, ast.Call) and U(v.func).split(".")[-1] == "average" and kwarg(v, "weights") is not None:
+            w = U(kwarg(v, "weights"))
+            den = None
+            how = f"np.average(…, weights={w})"
+            g = canon_guards(si, r)
+            texts = {t.replace(" ", "") for t, p in g if p} | {"not:" + t.replace(" ", "") for t, p in g if not p}
+            sums = (f"sum({w})", f"np.sum({w})", f"math.fsum({w})", f"{w}.sum()")
+            ok = any(f"0<{s_}" in texts or f"not:{s_}==0" in texts or f"{s_}!=0" in texts or f"not:{s_}<=0" in texts for s_ in sums)
+            n += 1
+            ctx.decide(ok, rule, site, (fi, r), "the weighted mean is taken only when the total weight is positive",
+                       f"`{U(r.value)[:70]}` is not guarded by the total weight: when every collected member has surface area 0 (radius 0, e.g. copies of dissolved droplets) "
+                       "numpy raises ZeroDivisionError('Weights sum to zero') instead of the documented None")
+            continue
+        if den is None:
+            ctx.undecided(rule, site, (fi, r), f"returned value `{U(r.value)[:60]}` not recognised as a weighted mean")
+            continue
+        g = canon_guards(si, r)
+        texts = {t.replace(" ", "") for t, p in g if p} | {"not:" + t.replace(" ", "") for t, p in g if not p}
+        ok = any(x in texts for x in (f"0<{den}", f"not:{den}==0", f"{den}!=0", f"not:{den}<=0", f"{den}"))
+        n += 1
+        ctx.decide(ok, rule, site, (fi, r), f"the {how} by the total weight `{den}` is taken only when it is non-zero (None otherwise)",
+                   f"`{U(r.value)[:70]}` divides by the total weight `{den}` without excluding {den} == 0 (guards: {sorted(texts)[:4]}): when every collected member has surface area 0 "
+                   "(radius 0) the result is 0/0 or ZeroDivisionError instead of None")
+    return n
